@@ -40,7 +40,7 @@ def main():
     suite = "--no-suite" not in sys.argv
     slug = os.path.basename(seed)
     res = {"confirmed_at": time.strftime("%Y-%m-%d %H:%M:%S"), "steps": []}
-    sh("git checkout -- . && git clean -fdq include", cwd=wt)
+    sh("git reset -q --hard && git clean -fdq include", cwd=wt)
     sh("git checkout -q --detach main", cwd=wt)          # the library's current HEAD (fix: commits land while seeders work)
     res["tree"] = sh("git log --format=%h -1", cwd=wt)[1].strip()
     rc0, o0 = run_demo(seed, wt, "clean")
@@ -73,7 +73,7 @@ def main():
         res["our_check"] = {"cmd": "GIL_ROOT=<patched worktree> VERIF_SCRATCH_LEAN=1 ./check %s --tier quick" % prop, "exit": rcc,
                             "lines": vio, "replay": replay, "wall_s": round(time.time() - t0, 1),
                             "caught": rcc == 1, "concrete_input": bool(vio) and "no-failing-input-found" not in " ".join(vio)}
-    sh("git checkout -- . && git clean -fdq include", cwd=wt)
+    sh("git reset -q --hard && git clean -fdq include", cwd=wt)
     sh("git checkout -- evidence/%s.json" % prop, cwd=VERIF)
     ok = rc0 == 0 and rc1 not in (0, None, 99)
     res["kept"] = ok and (not suite or "100% tests passed" in json.dumps(res.get("existing_suite_with_change", "")))
